@@ -10,7 +10,7 @@ from harness.common import Check, seed
 
 BASE = {'asn4': True, 'addpath': True, 'ibgp': False, 'extnh': False, 'mpr4': False, 'origin': 0, 'path': 'P2', 'as4': 'none', 'med': 'ten', 'pref': 'none', 'atomic': False, 'aggr': False,
         'comm': 'one', 'orig': False, 'unkT': 'none', 'unkNT': False, 'ext': False, 'partial': False, 'rev': False, 'nlri': 'one', 'wd': 'none', 'mpr': 'none',
-        'mprLL': False, 'mpu': 'none', 'fault': 'none'}
+        'mprLL': False, 'mpu': 'none', 'fault': ['none', 'none']}
 
 
 def diff(u):
